@@ -18,11 +18,26 @@ EXACT = {"arrange_perm", "redistribute", "extract", "add", "sub", "neg", "scalar
          "update_weights", "update_mode", "permute", "copy"}
 
 
-def mk(K: dict):
+def mk(K: dict, op: str = ""):
+    """the Kruskal tensor K.  Two presentations of the same object are rotated with the array layout (bind.get_layout()):
+    * internal factor matrices stored C-ordered - the state normalize(weight_factor=...) leaves behind, or a user
+      assigning a plain numpy array to factor_matrices[n];
+    * an unevenly balanced parameterisation (first factor scaled by 2^-60 per column, weights by 2^60: exact in binary
+      floating point, so the denoted tensor is bit-identical) for the operations whose result is specified by its
+      denotation and normal form, not by exact parameters."""
     import bind
     R = len(K["w"])
     U = [np.array(m, dtype=float).reshape(len(m), R) for m in K["U"]]
-    return bind.ttb.ktensor(U, np.array(K["w"], dtype=float))
+    w = np.array(K["w"], dtype=float)
+    lay = bind.get_layout()
+    if lay == "strided" and op and op not in EXACT and op not in ("tovec", "update_weights", "update_mode") and R >= 1 and len(U) >= 2:
+        U[0] = U[0] * 2.0 ** -60
+        w = w * 2.0 ** 60
+    Kt = bind.ttb.ktensor(U, w)
+    if lay in ("swapped", "grown"):
+        for k in range(len(Kt.factor_matrices)):
+            Kt.factor_matrices[k] = np.ascontiguousarray(Kt.factor_matrices[k])
+    return Kt
 
 
 def norms(M, nt):
@@ -74,7 +89,7 @@ def call(op: str, a: dict) -> dict:
     try:
         with warnings.catch_warnings():
             warnings.simplefilter("ignore")
-            K = mk(a["K"])
+            K = mk(a["K"], op)
             I = lambda x: np.array(x, dtype=int)
             res = K
             extra = {}
